@@ -457,6 +457,18 @@ def run_impl(case, run):
                     beh = {'use': fid, 'args': [tok(a) for a in args],
                            'kwargs': sorted([kw] + tok(v) for kw, v in kwargs.items()),
                            'deps': deps, 'soft': soft, 'serialize': 'output_dir' in env_up[tsk.name]}
+                except OSError as exc:
+                    import errno
+                    if exc.errno == errno.ENAMETOOLONG and calls:
+                        # the generated name (it holds the names of the injected tasks, recursively) is longer than a file
+                        # name may be: the function has run on its injected values, only the directory of the serialized
+                        # result could not be made - which is attempted only when serialization was requested
+                        fid, args, kwargs = calls[-1]
+                        beh = {'use': fid, 'args': [tok(a) for a in args],
+                               'kwargs': sorted([kw] + tok(v) for kw, v in kwargs.items()),
+                               'deps': deps, 'soft': soft, 'serialize': True}
+                    else:
+                        beh = {'use': None, 'error': f'{type(exc).__name__}: {exc}'[:200]}
                 except Exception as exc:  # pylint: disable=broad-except
                     beh = {'use': None, 'error': f'{type(exc).__name__}: {exc}'[:200]}
             else:
